@@ -197,14 +197,14 @@ theorem stopAction1_spec (s : State) (a : Nat) (s' : State) (h : stopAction1 s a
 structure FlowUpd (f f' : Flow) : Prop where
   flowId : f'.flowId = f.flowId
   parent : f'.parent = f.parent
-  nis : f'.nis = f.nis
+  nis : f.nis = true → f'.nis = true
   isMain : f'.isMain = f.isMain
   actionUids : f'.actionUids = f.actionUids
   status : f'.status = f.status ∨ f'.status = .stopped ∨ f'.status = .finished
   children : ∀ c, c ∈ f'.children → c ∈ f.children
   activated : f'.activated ≤ f.activated
 
-theorem FlowUpd.rfl' (f : Flow) : FlowUpd f f := ⟨rfl, rfl, rfl, rfl, rfl, Or.inl rfl, fun _ h => h, by simp⟩
+theorem FlowUpd.rfl' (f : Flow) : FlowUpd f f := ⟨rfl, rfl, fun h => h, rfl, rfl, Or.inl rfl, fun _ h => h, by simp⟩
 
 /-- `FlowFailed` / `FlowFinished`: the only internal events pushed (appended) inside the recursion -/
 def IEv.isEnd : IEv → Bool
@@ -272,7 +272,7 @@ theorem deactLoop_steps {x : Bool} (rec : State → Nat → Except Err State)
       · split at h
         · next s1 h1 =>
           exact (hrec _ _ _ h1).trans
-            ((Steps.modFlow s1 c (fun f => { f with activated := 0 }) (fun f => ⟨rfl, rfl, rfl, rfl, rfl, Or.inl rfl, fun _ h => h, by simp⟩)).trans
+            ((Steps.modFlow s1 c (fun f => { f with activated := 0 }) (fun f => ⟨rfl, rfl, fun h => h, rfl, rfl, Or.inl rfl, fun _ h => h, by simp⟩)).trans
               (deactLoop_steps rec hrec fid cs _ s' h))
         · cases h
       · exact deactLoop_steps rec hrec fid cs s s' h
@@ -320,10 +320,10 @@ theorem deactivatePhase_steps {x : Bool} (rec : State → Nat → Except Err Sta
       · split at h
         · next s2 h2 =>
           cases h
-          exact .cons (.flow (f' := { f with activated := f.activated - 1 }) hf ⟨rfl, rfl, rfl, rfl, rfl, Or.inl rfl, fun _ h => h, by simp⟩) (deactLoop_steps rec hrec _ _ _ _ h2)
+          exact .cons (.flow (f' := { f with activated := f.activated - 1 }) hf ⟨rfl, rfl, fun h => h, rfl, rfl, Or.inl rfl, fun _ h => h, by simp⟩) (deactLoop_steps rec hrec _ _ _ _ h2)
         · cases h
       · cases h
-        exact .single (.flow (f' := { f with activated := f.activated - 1 }) hf ⟨rfl, rfl, rfl, rfl, rfl, Or.inl rfl, fun _ h => h, by simp⟩)
+        exact .single (.flow (f' := { f with activated := f.activated - 1 }) hf ⟨rfl, rfl, fun h => h, rfl, rfl, Or.inl rfl, fun _ h => h, by simp⟩)
 
 theorem removeFromParent_steps {x : Bool} (s : State) (u : Nat) (s' : State) (h : removeFromParent s u = .ok s') :
     Steps x s s' := by
@@ -338,7 +338,7 @@ theorem removeFromParent_steps {x : Bool} (s : State) (u : Nat) (s' : State) (h 
         · next pf hpf =>
           split at h
           · cases h
-            exact .single (.flow (f' := { pf with children := pf.children.erase u }) hpf ⟨rfl, rfl, rfl, rfl, rfl, Or.inl rfl, fun c hc => List.mem_of_mem_erase hc, by simp⟩)
+            exact .single (.flow (f' := { pf with children := pf.children.erase u }) hpf ⟨rfl, rfl, fun h => h, rfl, rfl, Or.inl rfl, fun c hc => List.mem_of_mem_erase hc, by simp⟩)
           · cases h
     · cases h; exact .refl _
 
@@ -347,6 +347,42 @@ theorem restart_true (s : State) (u : Nat) (s' : State) (h : restart s u true = 
   split at h
   · cases h
   · simp at h; exact h.symm
+
+theorem markNoRestart_self (s : State) (u : Nat) (f : Flow) (hf : s.flows u = some f) :
+    ∃ f0, (markNoRestart s u).flows u = some f0 ∧ f0.children = f.children ∧ f0.actionUids = f.actionUids ∧
+      f0.status = f.status ∧ f0.activated = f.activated ∧ f0.flowId = f.flowId ∧ f0.parent = f.parent ∧ f0.isMain = f.isMain ∧
+      (f.nis = true → f0.nis = true) ∧ (f.status = .starting → 0 < f.activated → f0.nis = true) ∧
+      (markNoRestart s u = s ∨ markNoRestart s u = setFlow s u f0) := by
+  unfold markNoRestart
+  rw [hf]
+  dsimp only
+  split
+  · next hc =>
+    refine ⟨{ f with nis := true }, setFlow_flows_same _ _ _, rfl, rfl, rfl, rfl, rfl, rfl, rfl, fun _ => rfl, fun _ _ => rfl, Or.inr rfl⟩
+  · next hc =>
+    refine ⟨f, hf, rfl, rfl, rfl, rfl, rfl, rfl, rfl, fun h => h, ?_, Or.inl rfl⟩
+    intro h1 h2
+    exfalso; apply hc
+    simp [h1, h2]
+
+theorem markNoRestart_frame (s : State) (u : Nat) :
+    (markNoRestart s u).actions = s.actions ∧ (markNoRestart s u).out = s.out ∧ (markNoRestart s u).queue = s.queue ∧
+    (markNoRestart s u).order = s.order ∧ ∀ v, v ≠ u → (markNoRestart s u).flows v = s.flows v := by
+  unfold markNoRestart
+  split
+  · split
+    · exact ⟨rfl, rfl, rfl, rfl, fun v hv => setFlow_flows_ne _ _ _ _ hv⟩
+    · exact ⟨rfl, rfl, rfl, rfl, fun _ _ => rfl⟩
+  · exact ⟨rfl, rfl, rfl, rfl, fun _ _ => rfl⟩
+
+theorem markNoRestart_steps {x : Bool} (s : State) (u : Nat) : Steps x s (markNoRestart s u) := by
+  unfold markNoRestart
+  split
+  · next f hf =>
+    split
+    · exact .single (.flow (f' := { f with nis := true }) hf ⟨rfl, rfl, fun _ => rfl, rfl, rfl, Or.inl rfl, fun _ h => h, by simp⟩)
+    · exact .refl _
+  · exact .refl _
 
 /-- `_abort_flow` after the deactivation block: a sequence of inner steps, then possibly the restart -/
 theorem abortBody_steps {x : Bool} (rec : State → Nat → Except Err State)
@@ -372,10 +408,10 @@ theorem abortBody_steps {x : Bool} (rec : State → Nat → Except Err State)
             · next s4 h4 =>
               right
               refine ⟨_, ?_, h⟩
-              refine (childLoop_steps rec hrec _ _ _ h1).trans ((stopActions_steps _ _ _ h2).trans ?_)
-              refine (Steps.modFlow s2 u (fun f => { f with heads := 0 }) (fun f => ⟨rfl, rfl, rfl, rfl, rfl, Or.inl rfl, fun _ h => h, by simp⟩)).trans ?_
+              refine (markNoRestart_steps s u).trans ((childLoop_steps rec hrec _ _ _ h1).trans ((stopActions_steps _ _ _ h2).trans ?_))
+              refine (Steps.modFlow s2 u (fun f => { f with heads := 0 }) (fun f => ⟨rfl, rfl, fun h => h, rfl, rfl, Or.inl rfl, fun _ h => h, by simp⟩)).trans ?_
               refine (removeFromParent_steps _ _ _ h4).trans ?_
-              refine (Steps.modFlow s4 u (fun f => { f with status := .stopped }) (fun f => ⟨rfl, rfl, rfl, rfl, rfl, Or.inr (Or.inl rfl), fun _ h => h, by simp⟩)).trans ?_
+              refine (Steps.modFlow s4 u (fun f => { f with status := .stopped }) (fun f => ⟨rfl, rfl, fun h => h, rfl, rfl, Or.inr (Or.inl rfl), fun _ h => h, by simp⟩)).trans ?_
               exact .single (.push _ rfl)
 
 /-- every `_abort_flow(.., deactivate_flow=True)` call (all nested calls are of this kind) is a sequence of inner steps -/
@@ -445,7 +481,7 @@ theorem finishBody_steps (rec : State → Nat → Except Err State)
           · next s2 h2 =>
             dsimp only at h
             refine (childLoop_steps rec hrec _ _ _ h1).trans ((stopActions_steps _ _ _ h2).trans ?_)
-            refine (Steps.modFlow s2 u (fun f => { f with heads := 0 }) (fun f => ⟨rfl, rfl, rfl, rfl, rfl, Or.inl rfl, fun _ h => h, by simp⟩)).trans ?_
+            refine (Steps.modFlow s2 u (fun f => { f with heads := 0 }) (fun f => ⟨rfl, rfl, fun h => h, rfl, rfl, Or.inl rfl, fun _ h => h, by simp⟩)).trans ?_
             split at h
             · cases h
               generalize (modFlow s2 u fun f => { f with heads := 0 }) = s3
@@ -456,7 +492,7 @@ theorem finishBody_steps (rec : State → Nat → Except Err State)
             · split at h
               · cases h
               · next s5 h5 =>
-                refine (Steps.modFlow _ u (fun f => { f with status := .finished }) (fun f => ⟨rfl, rfl, rfl, rfl, rfl, Or.inr (Or.inr rfl), fun _ h => h, by simp⟩)).trans ?_
+                refine (Steps.modFlow _ u (fun f => { f with status := .finished }) (fun f => ⟨rfl, rfl, fun h => h, rfl, rfl, Or.inr (Or.inr rfl), fun _ h => h, by simp⟩)).trans ?_
                 refine (removeFromParent_steps _ _ _ h5).trans ?_
                 exact (Steps.single (.push _ rfl)).trans (restart_steps _ _ _ _ h)
 
@@ -482,7 +518,7 @@ theorem endScope_steps (n : Nat) (s : State) (u nm : Nat) (s' : State) (h : endS
       split at h
       · cases h
       · next s2 h2 =>
-        refine .cons (.flow (f' := { f with scopes := scopeErase nm f.scopes }) hf ⟨rfl, rfl, rfl, rfl, rfl, Or.inl rfl, fun _ h => h, by simp⟩) ?_
+        refine .cons (.flow (f' := { f with scopes := scopeErase nm f.scopes }) hf ⟨rfl, rfl, fun h => h, rfl, rfl, Or.inl rfl, fun _ h => h, by simp⟩) ?_
         exact (scopeFlowLoop_steps _ (fun s c s' h => abortFlow_steps n s c false s' h) _ _ _ h2).trans (stopActions_steps _ _ _ h)
 
 /-! ### invariants of the primitive steps that only concern actions and outgoing events -/
@@ -631,7 +667,7 @@ theorem Steps.RanInv {x : Bool} {s0 s t : State} (hi : RanInv s0 s) (h : Steps x
 theorem FlowUpd.trans {f g h : Flow} (h1 : FlowUpd f g) (h2 : FlowUpd g h) : FlowUpd f h where
   flowId := h2.flowId.trans h1.flowId
   parent := h2.parent.trans h1.parent
-  nis := h2.nis.trans h1.nis
+  nis := fun h => h2.nis (h1.nis h)
   isMain := h2.isMain.trans h1.isMain
   actionUids := h2.actionUids.trans h1.actionUids
   status := by
@@ -795,7 +831,7 @@ theorem stopActions_frame : ∀ (l : List Nat) (s s' : State), stopActions s l =
 theorem abortBody_post (rec : State → Nat → Except Err State) (s : State) (u : Nat) (d : Bool) (s' : State) (f : Flow)
     (hf : s.flows u = some f) (hl : f.status.listening = true ∨ f.status = .stopping)
     (h : abortBody rec s u d = .ok s') :
-    ∃ s1 f1 s2 s6 f6, childLoop rec s f.children = .ok s1 ∧ s1.flows u = some f1 ∧
+    ∃ s1 f1 s2 s6 f6, childLoop rec (markNoRestart s u) f.children = .ok s1 ∧ s1.flows u = some f1 ∧
       stopActions s1 f1.actionUids = .ok s2 ∧
       s6.actions = s2.actions ∧ s6.out = s2.out ∧ s6.queue = s1.queue ++ [.flowFailed u] ∧
       s6.flows u = some f6 ∧ f6.status = .stopped ∧ f6.heads = 0 ∧ f6.activated = f1.activated ∧
